@@ -753,9 +753,18 @@ def rule_dedup_conclusions(db: ProgramDB) -> List[Instance]:
                 isinstance(x, ast.Call) and call_attr(x) in ("update", "add") and x.args and unparse(x.args[0]) == "self.right._unique_variables_"
                 for x in ast.walk(nd.ast))
 
+        def _right_conclusion_sources(nd) -> Set[str]:
+            """which conclusion collections of the right operand a loop that extends the key ranges over"""
+            if nd.kind != "for" or not any(isinstance(x, ast.Call) and call_attr(x) in ("update", "add") for st in nd.stmt.body for x in ast.walk(st)):
+                return set()
+            return {x.attr for x in ast.walk(nd.stmt.iter) if isinstance(x, ast.Attribute) and unparse(x.value) == "self.right"
+                    and x.attr in ("_conclusion_", "_conclusions_of_all_descendants_", "_descendants_")}
+
         def loops_right_conclusions(nd) -> bool:
-            return nd.kind == "for" and unparse(nd.stmt.iter) == "self.right._conclusion_" and any(
-                isinstance(x, ast.Call) and call_attr(x) in ("update", "add") for st in nd.stmt.body for x in ast.walk(st))
+            return "_conclusion_" in _right_conclusion_sources(nd)
+
+        def loops_conclusions_below_right(nd) -> bool:
+            return bool(_right_conclusion_sources(nd) & {"_conclusions_of_all_descendants_", "_descendants_"})
         for label, tok in (("False", FALSE), ("None", NONE)):
             ev = AbsEval(db, m, cfg, attr_hook=attr_hook)
             IN = ev.run(State({"when_true": tok, child_param: ("obj", "#left")}), kinds=("n",))
@@ -774,6 +783,14 @@ def rule_dedup_conclusions(db: ProgramDB) -> List[Instance]:
                             "the failed rows of the left side are keyed by the variables the right side tests but not by those its "
                             "conclusions use: an alternative that concludes on a variable its condition does not mention fires for the "
                             "first failed assignment only (the others are suppressed as duplicates before it sees them)"))
+            ok2 = any(loops_conclusions_below_right(nd) for nd in reach)
+            out.append(inst("DEDUP-CONCLUSIONS", HOLDS if ok2 else VIOLATION, m, f"{m.short}[failed rows of self.left, when_true={label}: conclusions below a selector]",
+                            "the conclusions attached below the right side (a refined alternative is a selector: its own conclusion set is filled only "
+                            "while it is evaluated) are part of the key" if ok2 else
+                            "only the right operand's OWN conclusion set is read for the key; for a refined alternative that operand is a selector whose "
+                            "set is filled only while it is evaluated, so when the key is computed it is empty: failed rows that differ only in a "
+                            "variable the alternative concludes on are suppressed as duplicates (base x.a == y.k refined, alternative(y.k >= 0) refined: "
+                            "the alternative's conclusions for the items the base never matches are lost)"))
     if n == 0:
         raise AnalysisError("no else-if style implementation of _required_variables_from_child_ found")
     return out
